@@ -324,15 +324,33 @@ func (f *fidRef) markChildDeleted(name string) {
 //
 // Precondition: this must be called via safelyGlobal.
 func notifyNameChange(pn *pathNode) {
-	// Call on all local references.
+	// Call on all local references. Hold a reference during the callback,
+	// so that the file is not closed concurrently (a reference that is
+	// already being destroyed is skipped), and drop it without childMu
+	// held, since dropping the last one removes the child from pn.
+	type child struct {
+		ref  *fidRef
+		name string
+	}
+	var children []child
 	pn.forEachChildRef(func(ref *fidRef, name string) {
-		ref.file.Renamed(ref.parent.file, name)
+		if ref.TryIncRef() {
+			children = append(children, child{ref, name})
+		}
 	})
+	for _, c := range children {
+		c.ref.file.Renamed(c.ref.parent.file, c.name)
+		c.ref.DecRef()
+	}
 
-	// Call on all subtrees.
+	// Call on all subtrees, likewise without childMu held.
+	var nodes []*pathNode
 	pn.forEachChildNode(func(pn *pathNode) {
-		notifyNameChange(pn)
+		nodes = append(nodes, pn)
 	})
+	for _, pn := range nodes {
+		notifyNameChange(pn)
+	}
 }
 
 // renameChildTo renames the given child to the target.
